@@ -464,7 +464,10 @@ func c18State(c *Ctx, reach map[*ssa.Function][]*ssa.Function) {
 			r.Check(len(probs) == 0 && len(rets) > 0, "R18-state", "Points.Reset stores every piece of evaluator state on every path and reads none of the old state", c.pos(reset.Pos()), "", strings.Join(probs, "; "))
 		}
 	} else {
-		r.Pass("R18-state", "sargon.Hook.Search re-initialises the stateful evaluator before every search", "", "", "no stateful evaluator left")
+		// no separate re-initialising method: the evaluator's state, if any, is then written where the general
+		// obligation above sees it (stores into an object the call itself created are per-search, anything else fails there)
+		r.Pass("R18-state", "sargon.Hook.Search re-initialises the stateful evaluator before every search", "", "", "no re-initialising method: evaluator state is covered by the general obligation")
+		r.Pass("R18-state", "Points.Reset stores every piece of evaluator state on every path and reads none of the old state", "", "", "no re-initialising method: evaluator state is covered by the general obligation")
 	}
 }
 
